@@ -437,7 +437,8 @@ __ymcw_add_b(dt_ymcw_t d, int n)
 #if 1
 /* trivial trait, reduce to _add_d() problem and dispatch,
  * the closed form below goes astray when D is on a weekend */
-	dt_dow_t wd = __ymcw_get_wday(d);
+	/* Sunday may be spelt 0 in there */
+	dt_dow_t wd = __ymcw_get_wday(d) ?: DT_SUNDAY;
 	return __ymcw_add_d(d, __get_d_equiv(wd, n));
 #else
 	signed int aw = n / (signed int)DUWW_BDAYS_P_WEEK;
